@@ -39,6 +39,13 @@ Section Paths.
   Qed.
 End Paths.
 
+Lemma lpath_inv lab p w r : lpath lab p w r ->
+  (p = r /\ w = []) \/ (exists m s u v, lab p m = Some s /\ rden s u /\ lpath lab m v r /\ w = u ++ v).
+Proof.
+  intro H. destruct H as [p|p m r s u v Hl Hu Hv]; [left; split; reflexivity|].
+  right. exists m, s, u, v. repeat split; assumption.
+Qed.
+
 Lemma lpath_ext lab lab' : (forall p q, lab p q = lab' p q) ->
   forall p w r, lpath lab p w r -> lpath lab' p w r.
 Proof.
@@ -337,3 +344,215 @@ Proof.
     + intros p Hp. simpl in Hp. apply remove_nat_In in Hp. destruct Hp as [Hp Hne].
       destruct (Hcov p Hp) as [H|[H|[H|H]]]; auto. congruence.
 Qed.
+
+(* ---------- the GNFA of a finite automaton ---------- *)
+Lemma fresh_gt l x : In x l -> x < fresh l.
+Proof.
+  unfold fresh. induction l as [|y l IH]; simpl; [intros []|].
+  intros [E|H]; [subst; lia|]. specialize (IH H). lia.
+Qed.
+
+Lemma unions_spec l u :
+  (exists s, unions l = Some s /\ rden s u) <-> (exists r, In r l /\ rden r u).
+Proof.
+  destruct l as [|r t]; simpl.
+  - split; [intros (s & E & _); discriminate|intros (r & [] & _)].
+  - assert (H : forall t r, rden (fold_left RUnion t r) u <-> rden r u \/ exists x, In x t /\ rden x u).
+    { clear. induction t as [|y t IH]; intro r; simpl.
+      - split; [auto|intros [H|(x & [] & _)]; exact H].
+      - rewrite IH. simpl. unfold l_union. split.
+        + intros [[H|H]|(x & Hx & Hu)]; eauto.
+        + intros [H|(x & [E|Hx] & Hu)]; subst; eauto. }
+    split.
+    + intros (s & E & Hs). inversion E; subst s. apply H in Hs.
+      destruct Hs as [Hs|(x & Hx & Hu)]; eauto.
+    + intros (x & [E|Hx] & Hu); eexists; (split; [reflexivity|]); apply H; subst; eauto.
+Qed.
+
+Section FAGnfa.
+  Variables (sts : list nat) (q0 : nat) (finals : list nat) (lab : nat -> nat -> option rex).
+  Let G := fa_gnfa sts q0 finals lab.
+  Let i := fresh sts.
+  Let f := S i.
+
+  Lemma fa_i_notin : ~ In i sts.
+  Proof. intro H. apply fresh_gt in H. unfold i in H. lia. Qed.
+  Lemma fa_f_notin : ~ In f sts.
+  Proof. intro H. apply fresh_gt in H. unfold f, i in H. lia. Qed.
+
+  Lemma fa_label p q :
+    label G p q =
+    if memb p (i :: f :: sts) && memb q (i :: f :: sts) then
+      if Nat.eqb p i then (if Nat.eqb q q0 then Some REps else None)
+      else if Nat.eqb p f then None
+      else if Nat.eqb q i then None
+      else if Nat.eqb q f then (if memb p finals then Some REps else None)
+      else lab p q
+    else None.
+  Proof. unfold G, fa_gnfa. fold i. fold f. rewrite label_tabulate. reflexivity. Qed.
+
+  Lemma memb_all p : In p sts -> memb p (i :: f :: sts) = true.
+  Proof. intro H. apply memb_In. right. right. exact H. Qed.
+
+  Lemma inner_ne p : In p sts -> Nat.eqb p i = false /\ Nat.eqb p f = false.
+  Proof.
+    intro H. split; apply Nat.eqb_neq; intro E; subst p; [apply fa_i_notin|apply fa_f_notin]; exact H.
+  Qed.
+
+  Lemma fa_label_inner p q : In p sts -> In q sts -> label G p q = lab p q.
+  Proof.
+    intros Hp Hq. rewrite fa_label, (memb_all p Hp), (memb_all q Hq). simpl.
+    destruct (inner_ne p Hp) as [-> ->]. destruct (inner_ne q Hq) as [-> ->]. reflexivity.
+  Qed.
+
+  Lemma fa_label_to_final p : In p sts -> label G p f = if memb p finals then Some REps else None.
+  Proof.
+    intro Hp. rewrite fa_label, (memb_all p Hp). destruct (inner_ne p Hp) as [-> ->].
+    assert (memb f (i :: f :: sts) = true) as -> by (apply memb_In; right; left; reflexivity).
+    assert (Nat.eqb f i = false) as -> by (apply Nat.eqb_neq; unfold f; lia).
+    rewrite Nat.eqb_refl. reflexivity.
+  Qed.
+
+  Lemma fa_label_from_init q s : label G i q = Some s -> q = q0 /\ s = REps.
+  Proof.
+    rewrite fa_label. destruct (memb i (i :: f :: sts) && memb q (i :: f :: sts)); [|discriminate].
+    rewrite Nat.eqb_refl. destruct (Nat.eqb q q0) eqn:E; [|discriminate].
+    apply Nat.eqb_eq in E. intro H. inversion H. auto.
+  Qed.
+
+  Lemma fa_label_init_q0 : In q0 sts -> label G i q0 = Some REps.
+  Proof.
+    intro H. rewrite fa_label, (memb_all q0 H).
+    assert (memb i (i :: f :: sts) = true) as -> by (apply memb_In; left; reflexivity).
+    simpl. rewrite !Nat.eqb_refl. reflexivity.
+  Qed.
+
+  Hypothesis Hq0 : In q0 sts.
+
+  Lemma fa_label_into_init p : label G p i = None.
+  Proof.
+    rewrite fa_label. destruct (memb p (i :: f :: sts) && memb i (i :: f :: sts)); [|reflexivity].
+    destruct (Nat.eqb p i) eqn:E1.
+    - destruct (Nat.eqb i q0) eqn:E2; [|reflexivity]. apply Nat.eqb_eq in E2.
+      exfalso. apply fa_i_notin. rewrite E2. exact Hq0.
+    - rewrite Nat.eqb_refl. destruct (Nat.eqb p f); reflexivity.
+  Qed.
+
+  Lemma fa_label_from_final p : label G f p = None.
+  Proof.
+    rewrite fa_label. destruct (memb f (i :: f :: sts) && memb p (i :: f :: sts)); [|reflexivity].
+    assert (Nat.eqb f i = false) as -> by (apply Nat.eqb_neq; unfold f; lia).
+    rewrite Nat.eqb_refl. reflexivity.
+  Qed.
+
+  Lemma fa_gnfa_ok : gnfa_ok G.
+  Proof.
+    unfold gnfa_ok. change (g_init G) with i. change (g_final G) with f.
+    change (g_states G) with (i :: f :: sts). repeat split.
+    - left. reflexivity.
+    - right. left. reflexivity.
+    - unfold f. lia.
+    - apply fa_label_into_init.
+    - apply fa_label_from_final.
+  Qed.
+
+  (* the language is read from the old initial state *)
+  Lemma fa_lang_from_q0 w : L_gnfa G w <-> lpath (label G) q0 w f.
+  Proof.
+    unfold L_gnfa. change (g_init G) with i. change (g_final G) with f. split.
+    - intro H. destruct (lpath_inv _ _ _ _ H) as [[E _]|(m & s & u & v & Hl & Hu & Hv & ->)].
+      + exfalso. unfold f in E. lia.
+      + destruct (fa_label_from_init _ _ Hl) as [-> ->]. simpl in Hu. unfold l_eps in Hu. subst u. exact Hv.
+    - intro H. apply (lp_step (label G) i q0 f REps [] w); [apply fa_label_init_q0; exact Hq0|reflexivity|exact H].
+  Qed.
+
+  Lemma fa_path_final p : In p sts -> In p finals -> lpath (label G) p [] f.
+  Proof.
+    intros Hp Hf. apply (lpath_one (label G) p f REps []); [|reflexivity].
+    rewrite (fa_label_to_final p Hp). apply memb_In in Hf. rewrite Hf. reflexivity.
+  Qed.
+
+  Lemma fa_path_step p m s u v : In p sts -> In m sts -> lab p m = Some s -> rden s u ->
+    lpath (label G) m v f -> lpath (label G) p (u ++ v) f.
+  Proof.
+    intros Hp Hm Hl Hu Hv. eapply lp_step; [|exact Hu|exact Hv]. rewrite fa_label_inner; assumption.
+  Qed.
+
+  (* induction principle for paths from an inner state to the final state *)
+  Lemma fa_path_ind (P : nat -> word -> Prop) :
+    (forall p, In p sts -> In p finals -> P p []) ->
+    (forall p m s u v, In p sts -> In m sts -> lab p m = Some s -> rden s u ->
+        lpath (label G) m v f -> P m v -> P p (u ++ v)) ->
+    forall p w, In p sts -> lpath (label G) p w f -> P p w.
+  Proof.
+    intros Hfin Hstep p w Hp H. remember f as r eqn:Er. revert Hp.
+    induction H as [p|p m r s u v Hl Hu Hv IH]; intro Hp.
+    - subst p. exfalso. apply fa_f_notin. exact Hp.
+    - subst r. destruct (label_states _ _ _ _ Hl) as [_ Hm]. change (g_states G) with (i :: f :: sts) in Hm.
+      destruct Hm as [Em|[Em|Hm]].
+      + subst m. rewrite fa_label_into_init in Hl. discriminate.
+      + subst m. rewrite (fa_label_to_final p Hp) in Hl.
+        destruct (memb p finals) eqn:Ef; [|discriminate]. inversion Hl; subst s.
+        simpl in Hu. unfold l_eps in Hu. subst u.
+        destruct (lpath_inv _ _ _ _ Hv) as [[_ ->]|(m' & s' & u' & v' & Hl' & _)].
+        * simpl. apply Hfin; [exact Hp|apply memb_In; exact Ef].
+        * rewrite fa_label_from_final in Hl'. discriminate.
+      + rewrite (fa_label_inner p m Hp Hm) in Hl.
+        apply (Hstep p m s u v Hp Hm Hl Hu Hv). apply IH; [reflexivity|exact Hstep|exact Hm].
+  Qed.
+End FAGnfa.
+
+(* ---------- GNFA.from_dfa ---------- *)
+Section OfDFA.
+  Variable d : dfa.
+  Hypothesis Hv : valid_dfa d = true.
+
+  Lemma dfa_lab_spec p m u :
+    (exists s, dfa_lab d p m = Some s /\ rden s u) <-> (exists a, u = [a] /\ d_delta d p a = Some m).
+  Proof.
+    unfold dfa_lab, d_delta. destruct (d_row d p) as [row|].
+    - rewrite unions_spec. split.
+      + intros (r & Hr & Hu). apply in_flat_map in Hr. destruct Hr as (e & He & Hr).
+        destruct (eqb_opt Nat.eqb (assoc (fst e) row) (Some m)) eqn:E; [|destruct Hr].
+        destruct Hr as [Hr|[]]. subst r. simpl in Hu.
+        apply (eqb_opt_ok _ eqb_nat_ok) in E. exists (fst e). split; assumption.
+      + intros (a & -> & Ha). exists (RSym a). split; [|reflexivity].
+        apply in_flat_map. exists (a, m). split; [apply assoc_In; exact Ha|]. simpl. rewrite Ha.
+        simpl. rewrite Nat.eqb_refl. left. reflexivity.
+    - split; [intros (s & E & _); discriminate|intros (a & _ & E); discriminate].
+  Qed.
+
+  Lemma dfa_inner_lang : forall w p, In p (d_states d) ->
+    (lpath (label (gnfa_of_dfa d)) p w (S (fresh (d_states d))) <-> dfa_acc_from d (Some p) w = true).
+  Proof.
+    destruct (valid_dfa_parts d Hv) as (_ & _ & _ & _ & _ & Hinit & Hfin).
+    intros w p Hp. split.
+    - revert p w Hp. apply (fa_path_ind (d_states d) (d_init d) (d_finals d) (dfa_lab d) Hinit
+        (fun p w => dfa_acc_from d (Some p) w = true)).
+      + intros p Hp Hf. unfold dfa_acc_from. simpl. apply memb_In. exact Hf.
+      + intros p m s u v Hp Hm Hl Hu _ IH.
+        destruct (proj1 (dfa_lab_spec p m u) (ex_intro _ s (conj Hl Hu))) as (a & -> & Ha).
+        unfold dfa_acc_from in *. simpl. rewrite Ha. exact IH.
+    - revert p Hp. induction w as [|a v IH]; intros p Hp H.
+      + apply fa_path_final; [exact Hp|]. unfold dfa_acc_from in H. simpl in H. apply memb_In. exact H.
+      + unfold dfa_acc_from in H. simpl in H. destruct (d_delta d p a) as [m|] eqn:Ea.
+        * destruct (delta_in_states d Hv _ _ _ Ea) as [Hm _].
+          destruct (proj2 (dfa_lab_spec p m [a]) (ex_intro _ a (conj eq_refl Ea))) as (s & Hl & Hu).
+          change (a :: v) with ([a] ++ v).
+          apply (fa_path_step _ _ _ _ p m s [a] v Hp Hm Hl Hu). apply IH; [exact Hm|exact H].
+        * rewrite dfa_run_None in H. discriminate.
+  Qed.
+
+  Theorem gnfa_of_dfa_lang : L_gnfa (gnfa_of_dfa d) =L L_dfa d.
+  Proof.
+    destruct (valid_dfa_parts d Hv) as (_ & _ & _ & _ & _ & Hinit & _).
+    intro w. unfold gnfa_of_dfa. rewrite (fa_lang_from_q0 _ _ _ _ Hinit).
+    apply (dfa_inner_lang w (d_init d) Hinit).
+  Qed.
+
+  Lemma gnfa_of_dfa_ok : gnfa_ok (gnfa_of_dfa d).
+  Proof.
+    destruct (valid_dfa_parts d Hv) as (_ & _ & _ & _ & _ & Hinit & _).
+    apply fa_gnfa_ok. exact Hinit.
+  Qed.
+End OfDFA.
